@@ -174,6 +174,7 @@ pub fn name_with_wire_len(wire: usize) -> String {
 pub fn owner_menu() -> Vec<String> {
     vec![
         "x".into(),
+        ".".into(),
         "x.".into(),
         "b.a".into(),
         "B.a.".into(),
@@ -202,7 +203,7 @@ pub fn txt_menu() -> Vec<(Vec<u8>, String)> {
 /// The grammar-derived valid texts: typed records with boundary values.
 pub fn valid_records(level: usize) -> Vec<TextRec> {
     let owners = owner_menu();
-    let names: Vec<String> = if level == 0 { owners[..6].to_vec() } else { owners.clone() };
+    let names: Vec<String> = if level == 0 { owners[..7].to_vec() } else { owners.clone() };
     let ttls: Vec<u32> = vec![0, 1, 4294967295, 3600];
     let mut v = vec![];
     let mut i = 0usize;
